@@ -405,6 +405,15 @@ def values_equal(a, b):
         return simp(zterm(a) == zterm(b))
     if isinstance(a, (str, SStr)) or isinstance(b, (str, SStr)):
         return False
+    # a symbolic truth value against a Python bool / another truth value (x == True, x == False)
+    if isinstance(a, z3.BoolRef) or isinstance(b, z3.BoolRef):
+        if isinstance(a, z3.BoolRef) and isinstance(b, z3.BoolRef):
+            return simp(a == b)
+        sb, other = (a, b) if isinstance(a, z3.BoolRef) else (b, a)
+        if isinstance(other, bool) or (isinstance(other, int) and other in (0, 1)):
+            return sb if bool(other) else simp(z3.Not(sb))
+        if isinstance(other, (int, Fraction)):
+            return False
     if is_num(a) and is_num(b):
         return num_cmp("==", a, b)
     if isinstance(a, tuple) and isinstance(b, tuple):
